@@ -218,7 +218,7 @@ def finish(prop, tier, level, results, replay_fn=None, trusted_base=(), explanat
         for v in s.get('violations', []):
             k = None
             for kk in known.get('open', []):
-                if kk['property'] == prop and kk.get('standin') == s['name'] and kk.get('witness_contains', '\0') in json.dumps(v):
+                if kk['property'] == prop and (kk.get('standin') == s['name'] or s['name'].startswith(kk.get('standin', '\0') + ' ')) and kk.get('witness_contains', '\0') in json.dumps(v):
                     k = kk
             if k is not None:
                 known_hits.append((k, {'name': s['name'], 'detail': json.dumps(v)[:200]}))
